@@ -21,6 +21,8 @@ def _load_registry():
     return registry
 
 
+_B = int(os.environ.get("VERIF_ITEM_BUDGET", "0") or 0)
+ITEM_BUDGET_S = {"quick": _B or 240, "thorough": _B or 900}    # wall budget of one exploration task (a shard counts separately)
 SPLIT_AFTER = 10      # paths an item explores before its open subtrees are handed to other workers
 MAX_SHARDS = 12
 
@@ -41,6 +43,14 @@ def _worker(task):
     out = {"item": item_name, "module": modname, "obligations": [], "paths": 0, "unsupported": [],
            "side_unknown": [], "solver_time": 0.0, "solver_calls": 0, "covered": [], "error": None,
            "truncated": False, "kind": "contract"}
+    item_deadline = task[7] if len(task) > 7 else None
+    if item_deadline is not None and time.time() > item_deadline:
+        # the item's global budget is used up (its path tree keeps growing): do not start this subtree
+        out["truncated"] = True
+        out["wall"] = 0.0
+        out["target"] = None
+        out["skipped_after_budget"] = True
+        return out
     try:
         sys.setrecursionlimit(20000)
         from pyvc.frontend import Program
@@ -59,7 +69,8 @@ def _worker(task):
         if isinstance(item, Lemma):
             out["kind"] = "lemma"
             out["expect_sat"] = item.expect_sat
-            res = explore(prog, item.name, lemma_driver(prog, item), timeout_ms=tmo, recheck=recheck, roots=roots, split_after=split_after)
+            res = explore(prog, item.name, lemma_driver(prog, item), timeout_ms=tmo, recheck=recheck, roots=roots, split_after=split_after,
+                          budget_s=ITEM_BUDGET_S["thorough" if timeout_ms > 60000 else "quick"])
             out["target"] = item.pred
         else:
             from pyvc.cdef import Finding
@@ -67,7 +78,8 @@ def _worker(task):
                    for f in findings_keys
                    if f.get("when") and (f.get("obligation", "") == item.name or f.get("obligation", "").startswith(item.name + "."))]
             res = explore(prog, item.name, contract_driver(prog, item, findings=fnd), timeout_ms=tmo,
-                          max_paths=item.max_paths, recheck=recheck, roots=roots, split_after=split_after)
+                          max_paths=item.max_paths, recheck=recheck, roots=roots, split_after=split_after,
+                          budget_s=ITEM_BUDGET_S["thorough" if timeout_ms > 60000 else "quick"])
             out["target"] = item.target
             out["replayable"] = getattr(item, "replayable", True)
             out["excluded_findings"] = [f.fid for f in fnd]
@@ -113,6 +125,7 @@ def run_tasks(tasks, jobs):
     hands its unexplored alternatives (disjoint subtrees) back and they are explored by other
     workers in parallel; results are merged per item"""
     results = {}
+    item_t0 = {}
     pending = []
     t0 = time.time()
     with mp.Pool(min(jobs, max(len(tasks), 4))) as pool:
@@ -133,11 +146,18 @@ def run_tasks(tasks, jobs):
                     _merge_shard(results[r["item"]], r)
                 else:
                     results[r["item"]] = r
+                    item_t0[r["item"]] = time.time() - r["wall"]
+                tier_budget = ITEM_BUDGET_S["thorough" if t[3] > 60000 else "quick"]
+                if left and time.time() - item_t0.get(r["item"], t0) > 2 * tier_budget:
+                    # the item's path tree keeps growing (a loop that no longer terminates?): stop
+                    # handing out its subtrees; what was found so far decides (violation) or not (undecided)
+                    results[r["item"]]["truncated"] = True
+                    left = []
                 if left and not r["error"]:
                     k = min(MAX_SHARDS, len(left))
                     chunks = [left[i::k] for i in range(k)]
                     for ch in chunks:
-                        st = tuple(t[:6]) + (ch,)
+                        st = tuple(t[:6]) + (ch, item_t0.get(r["item"], t0) + 2 * tier_budget)
                         nxt.append((st, pool.apply_async(_worker, (st,))))
             pending = nxt
             if not progressed:
@@ -294,7 +314,7 @@ def main(argv=None):
         else:
             faults.append("%s: precondition unsatisfiable (vacuous contract)" % r["item"])
         if r["truncated"]:
-            undecided.append("%s: path budget exhausted" % r["item"])
+            undecided.append("%s: path / time budget exhausted (unbounded path tree?)" % r["item"])
         for u in r["unsupported"]:
             undecided.append("%s: outside the verified subset: %s" % (r["item"], u))
         for u in r["side_unknown"]:
